@@ -77,7 +77,7 @@ class GatePolicy(taint.Policy):
         return d
 
     def interesting_sink(self, kind):
-        return False
+        return kind == "maskbyte"
 
     def res_of(self, eng, fn, op, depth=0):
         """("res", callee, args) if a by-value / by-reference operand is (a copy of) a tracked call's result."""
@@ -165,6 +165,20 @@ class GateAnalysis(taint.FnAnalysis):
                 super().assign(place, rv, st, ctrl | frozenset([lab]), line)
                 return
         super().assign(place, rv, st, ctrl, line)
+        # byte masks derived from a status word (`(!ok) as u8`): remember what they depend on
+        if rv[0] == "cast" and rv[1] == "IntToInt" and len(place) == 1:
+            td = self.f.ty(rv[3])
+            if td.get("k") == "uint" and td.get("bits") == 8:
+                l = operand_local(rv[2])
+                d = self.body.single_def(l) if l is not None else None
+                if d and d[2] == "A" and d[3][2][0] == "un" and d[3][2][1] == "Not":
+                    sl = operand_local(d[3][2][2])
+                    if sl is not None:
+                        st_td = self.f.ty(self.body.local_ty(sl))
+                        if st_td.get("k") == "uint" and st_td.get("bits") == 32:
+                            labs = self.st_read(st, (place[0], ()))
+                            key = ("maskbyte", line, "mask byte from !status")
+                            self.events[key] = self.events.get(key, taint.EMPTY) | labs | frozenset([("maskmark",)])
 
     def exec_block(self, bi, st):
         # `match slice.len() { 33 => .. }` / `match word { .. }`: the switch itself is the test
@@ -424,6 +438,46 @@ def check_failmask(facts, run, prop, table, cfg, eng):
     return n
 
 
+def check_maskbytes(facts, run, prop, table, cfg, eng):
+    """G9b: in the listed functions, every byte mask derived from a status word (`(!ok) as u8`) depends on every
+    check fact that the returned status depends on (a stale or partial status must not drive the substitution)."""
+    n = 0
+    for ent in table.get("maskbytes", []):
+        if prop not in ent["props"]:
+            continue
+        matched = [fn for fn in facts.fns.values() if re.fullmatch(ent["fn"], norm_name(fn["name"]))]
+        if not matched:
+            run.oblige(ok=False)
+            run.add(Finding("G0", ent["fn"], "gates: anchor function %s not found" % ent["fn"], config=cfg, prop=prop))
+        for fn in matched:
+            summ = eng.summary(fn)
+
+            def fset(labels):
+                return set(label_str(l, eng.policy, fn) for l in labels if isinstance(l, tuple) and l and l[0] in FACT_TAGS)
+            st_labels = taint.EMPTY
+            for path, v in summ.ret_cells.items():
+                if path and path[0] == ent.get("status_field", 1):
+                    st_labels |= v
+            rf = set(x for x in fset(st_labels) if re.fullmatch(ent["facts"], x))
+            masks = [(k, v) for k, v in summ.sinks.items() if k[0] == "maskbyte" and not isinstance(k[1], tuple)]
+            n += 1
+            run.oblige(ok=bool(masks))
+            if not masks:
+                run.add(Finding("G9b", norm_name(fn["name"]) + "|none",
+                                "gates G9b: %s (%s:%s) has no byte mask derived from its status (failure substitution missing?) -- %s" % (
+                                    fn["name"], fn["file"], fn["line"], ent["why"]), config=cfg, site="%s:%s" % (fn["file"], fn["line"]), prop=prop))
+                continue
+            for (k, v) in masks:
+                miss = rf - fset(v)
+                run.oblige(ok=not miss)
+                if miss:
+                    run.add(Finding("G9b", norm_name(fn["name"]),
+                                    "gates G9b: in %s (%s:%s) the substitution mask does not depend on %s although the returned status does -- %s" % (
+                                        fn["name"], fn["file"], k[1], sorted(miss)[0], ent["why"]),
+                                    config=cfg, site="%s:%s" % (fn["file"], k[1]), prop=prop))
+    return n
+
+
 class _Plain(taint.Policy):
     implicit = False
 
@@ -513,6 +567,7 @@ def run_gates(facts, run, prop):
     n_ca = check_call_args(facts, run, prop, table, cfg)
     n_ca += check_independent(facts, run, prop, table, cfg)
     n_ca += check_failmask(facts, run, prop, table, cfg, eng)
+    n_ca += check_maskbytes(facts, run, prop, table, cfg, eng)
     if prop == "C16":
         from . import lmsstate
         lmsstate.run_lmsstate(facts, run, prop)
